@@ -22,7 +22,11 @@
     |ref| <= 2^51*step on the refusal side).  The earlier bounded sweep
     (Proofs/RefIndexSweep.v: 12 steps x |k| <= 3000 by vm_compute) is subsumed by
     C09_multiples_accepted_float_hyps and is no longer an obligation of this file:
-    coqchk, which has no VM, cannot re-check a 72 000-case sweep in reasonable time. *)
+    coqchk, which has no VM, cannot re-check a 72 000-case sweep in reasonable time.
+    Last section: the origin as the master-curve VIEWS show it (Model/Views.v):
+    0 at the reference level after the writers' shift; without a reference the
+    origin is the view's last row as long as no stored level is missing from
+    the grid (C09_view_zero_at_reference, C09_view_origin_is_top_without_reference). *)
 From Spowtd Require Import Model.FitOffsets Model.RefIndex Proofs.QSum Proofs.FitOffsetsSpec
   Proofs.InvarianceSpec Proofs.RegridFlocq Proofs.RefIndexFlocq.
 From Coq Require Import ZArith Reals.
@@ -148,3 +152,81 @@ Example C09_examples :
   /\ reference_index 0x1.3333333333333p-2%float 0x1.999999999999ap-4%float = Ok 3%Z          (* 0.3 on a 0.1 grid *)
   /\ reference_index 0x1.4p+1%float 1%float = Err EValue.                                    (* 2.5 on a 1 mm grid *)
 Proof. vm_compute. repeat split; reflexivity. Qed.
+
+(** ** The origin as the views show it (Model/Views.v)
+
+    [store_with_reference offsets crossings ref] is the writers' last step
+    (rise.py:130-152, recession.py:94-126): every offset minus the level mean at
+    level [ref] over the aligned intervals crossing it.  The view
+    average_rising_depth / average_recession_time over the stored tables then
+    lists 0 at [ref] (whenever it lists that level at all: ref a grid level
+    crossed by an aligned interval) and elsewhere the curve measured from there.
+    Without a reference the writers take the highest level of the mapping: when
+    every crossing level is a grid level (C13_view_shows_every_stored_level)
+    that is the view's LAST row, and it is 0.  A grid that lacks the top level
+    breaks exactly this (Example C09_view_truncated_grid_loses_origin). *)
+From Spowtd Require Import Model.Views Proofs.ViewsSpec.
+Close Scope R_scope.
+Open Scope Q_scope.
+
+Theorem C09_view_zero_at_reference : forall offsets crossings grid step ref,
+  NoDup grid -> In ref (view_levels offsets crossings grid) ->
+  exists v, In (inject_Z ref * step, v)
+               (view_average (store_with_reference offsets crossings ref) crossings grid step) /\
+            v == 0.
+Proof. exact view_zero_at_reference. Qed.
+Print Assumptions C09_view_zero_at_reference.
+
+Theorem C09_view_measured_from_reference : forall offsets crossings grid step ref,
+  NoDup grid ->
+  let E := aligned_entries offsets crossings in
+  let x := offset_of offsets in
+  let stored := store_with_reference offsets crossings ref in
+  view_levels stored crossings grid = view_levels offsets crossings grid /\
+  forall k, In k (view_levels offsets crossings grid) ->
+    exists v, In (inject_Z k * step, v) (view_average stored crossings grid step) /\
+              v == head_mean E x k - head_mean E x ref.
+Proof. exact view_after_reference. Qed.
+Print Assumptions C09_view_measured_from_reference.
+
+Theorem C09_view_origin_is_top_without_reference : forall offsets crossings grid step,
+  NoDup grid ->
+  (forall e o k v, In (e, o) offsets -> In (e, k, v) crossings -> In k grid) ->
+  curve_levels offsets crossings <> [] ->
+  let top := last (curve_levels offsets crossings) 0%Z in
+  (forall k, In k (curve_levels offsets crossings) -> (k <= top)%Z) /\
+  exists v, last (view_average (store_with_reference offsets crossings top) crossings grid step) (0, 0)
+            = (inject_Z top * step, v) /\ v == 0.
+Proof. exact view_origin_is_top. Qed.
+Print Assumptions C09_view_origin_is_top_without_reference.
+
+(** Non-vacuity: two intervals (offsets 3 and 5) crossing levels -1 .. 2 (the
+    top level is positive), step 1/2; reference level 1, then no reference. *)
+Definition C09_ex_offsets : list (Z * Q) := [(100%Z, 3); (200%Z, 5)].
+Definition C09_ex_crossings : list (Z * Z * Q) :=
+  [(100%Z, (-1)%Z, 40); (100%Z, 0%Z, 30); (100%Z, 1%Z, 20);
+   (200%Z, 0%Z, 29); (200%Z, 1%Z, 17); (200%Z, 2%Z, 4)].
+
+Example C09_view_example_reference :
+  map (fun r => (Qred (fst r), Qred (snd r)))
+      (view_average (store_with_reference C09_ex_offsets C09_ex_crossings 1) C09_ex_crossings
+                    [-2; -1; 0; 1; 2]%Z (1 # 2))
+  = [(-1 # 2, 41 # 2); (0, 11); (1 # 2, 0); (1, -27 # 2)].
+Proof. vm_compute. reflexivity. Qed.
+
+Example C09_view_example_no_reference :
+  curve_levels C09_ex_offsets C09_ex_crossings = [-1; 0; 1; 2]%Z /\
+  map (fun r => (Qred (fst r), Qred (snd r)))
+      (view_average (store_with_reference C09_ex_offsets C09_ex_crossings 2) C09_ex_crossings
+                    [-2; -1; 0; 1; 2]%Z (1 # 2))
+  = [(-1 # 2, 34); (0, 49 # 2); (1 # 2, 27 # 2); (1, 0)].
+Proof. vm_compute. split; reflexivity. Qed.
+
+(** the grid of a truncating set-zeta-grid (top level missing): the view's last
+    row is no longer the origin - it is not 0 *)
+Example C09_view_truncated_grid_loses_origin :
+  map (fun r => (Qred (fst r), Qred (snd r)))
+      (view_average (store_with_reference C09_ex_offsets C09_ex_crossings 2) C09_ex_crossings
+                    [-3; -2; -1; 0; 1]%Z (1 # 2))
+  = [(-1 # 2, 34); (0, 49 # 2); (1 # 2, 27 # 2)].
+Proof. vm_compute. reflexivity. Qed.
